@@ -4,7 +4,9 @@
 
 #include "bitboard.h"
 #include "move_bitboards.h"
+#include "position.h"
 #include "types.h"
+#include "zobrist_hash.h"
 
 using namespace engine;
 
@@ -270,6 +272,96 @@ int main(int argc, char** argv)
     }
     else if (worker == 0)
         rec.count("movegen-ray-walkers-not-linkable(skipped)");
+    // The attack relation as the position code consumes it (whatever table or function it looks the set up in): one
+    // attacker (pawn, knight, bishop, rook, queen; both colours; every square it can stand on) against the other side's king on
+    // every square, nothing else on the board but the attacker's own king, then the same with one blocker on the line.
+    // Position::is_in_check must equal the geometric relation.
+    {
+        vh::set_case_text("attack relation through Position::is_in_check");
+        zobrist::init();
+        static const int KJ[8][2] = {{1, 2}, {2, 1}, {-1, 2}, {-2, 1}, {1, -2}, {2, -1}, {-1, -2}, {-2, -1}};
+        static const int KINDS[5] = {orc::PAWN, orc::KNIGHT, orc::BISHOP, orc::ROOK, orc::QUEEN};
+        long n = 0, positive = 0;
+        for (int a = worker; a < 64; a += workers)
+            for (int ki = 0; ki < 5; ++ki)
+                for (int ac = 0; ac < 2; ++ac)
+                {
+                    int kind = KINDS[ki];
+                    int af = a & 7, ar = a >> 3;
+                    if (kind == orc::PAWN && (ar == 0 || ar == 7)) continue;
+                    for (int k = 0; k < 64; ++k)
+                    {
+                        if (k == a) continue;
+                        int kf = k & 7, kr = k >> 3;
+                        int df = kf - af, dr = kr - ar;
+                        bool aligned_r = (df == 0 || dr == 0), aligned_b = std::abs(df) == std::abs(dr);
+                        bool slider_line = (kind == orc::ROOK && aligned_r) || (kind == orc::BISHOP && aligned_b) || (kind == orc::QUEEN && (aligned_r || aligned_b));
+                        uint64_t between = 0;
+                        if (aligned_r || aligned_b)
+                        {
+                            int sf = (df > 0) - (df < 0), sr = (dr > 0) - (dr < 0);
+                            for (int f = af + sf, r = ar + sr; f != kf || r != kr; f += sf, r += sr) between |= bit(f, r);
+                        }
+                        bool expect = false;
+                        if (kind == orc::PAWN)
+                        {
+                            expect = std::abs(df) == 1 && dr == (ac == orc::WHITE ? 1 : -1);
+                            // a pawn that never moved cannot be giving check in a reachable position: left out
+                            if (expect && ar == (ac == orc::WHITE ? 1 : 6)) continue;
+                        }
+                        else if (kind == orc::KNIGHT)
+                        {
+                            for (auto& j : KJ)
+                                if (df == j[0] && dr == j[1]) expect = true;
+                        }
+                        else expect = slider_line;
+                        // the attacker's own king: away from the attacked king, off the line between the two
+                        int ok_sq = -1;
+                        for (int tries = 0; tries < 200 && ok_sq < 0; ++tries)
+                        {
+                            int c = int(rng.below(64));
+                            if (c == a || c == k || (between >> c & 1)) continue;
+                            if (std::abs((c & 7) - kf) <= 1 && std::abs((c >> 3) - kr) <= 1) continue;
+                            ok_sq = c;
+                        }
+                        if (ok_sq < 0) continue;
+                        for (int blocked = 0; blocked < 2; ++blocked)
+                        {
+                            if (blocked && !(slider_line && between)) break;
+                            orc::Board b;
+                            b.sq[a] = orc::make_pc(ac, kind);
+                            b.sq[k] = orc::make_pc(1 - ac, orc::KING);
+                            b.sq[ok_sq] = orc::make_pc(ac, orc::KING);
+                            bool want = expect;
+                            if (blocked)
+                            {
+                                // a knight of the attacked side somewhere on the line: it cannot check its own king
+                                std::vector<int> bs;
+                                for (int c = 0; c < 64; ++c)
+                                    if (between >> c & 1) bs.push_back(c);
+                                b.sq[bs[rng.below(uint32_t(bs.size()))]] = orc::make_pc(1 - ac, orc::KNIGHT);
+                                want = false;
+                                b.stm = ac;
+                                if (b.in_check(ac)) continue;  // the blocker must not attack the other king (side not to move in check)
+                            }
+                            b.stm = 1 - ac;
+                            b.castle = 0;
+                            b.ep = -1;
+                            Position P(b.fen());
+                            bool got = P.is_in_check(P.color());
+                            ++n;
+                            positive += want;
+                            if (got != want)
+                                rec.violation(std::string("attack-relation:") + ".PNBRQK"[kind] + ":" + (ac == orc::WHITE ? "white" : "black") + (blocked ? ":blocked" : "") +
+                                                  ":expected" + (want ? "1" : "0") + (kind == orc::PAWN ? std::string(":king-rank") + char('1' + kr) : ""),
+                                              vh::J().str("fen", b.fen()).str("attacker", orc::sq_name(a)).str("king", orc::sq_name(k)).num("engine_in_check", got).num("geometry", want).done());
+                        }
+                    }
+                }
+        rec.evaluations += n;
+        rec.count("attack-relation-cases", n);
+        rec.count("attack-relation-cases:attacked", positive);
+    }
     rec.sample(vh::J().str("square", "e4").str("occupancy", "0000001000100000").str("rook_attack", hx(slider_attack<ROOK>(SQ_E4, 0x0000001000100000ULL))).done());
     rec.emit();
     return 0;
